@@ -503,27 +503,41 @@ class Polygon(Shape2D):
                 "directly from PyPI using pip install miniball."
             )
 
+        # The vertices are coplanar, so in three dimensions every support set of
+        # four points makes the linear system that miniball solves singular. The
+        # ball is therefore computed in the plane of the polygon.
+        planar_vertices, rotation = _align_points_by_normal(
+            self._normal, self._vertices
+        )
+        height = np.mean(planar_vertices[:, 2])
+        planar_vertices = planar_vertices[:, :2]
+
         # The algorithm in miniball involves solving a linear system and
         # can therefore occasionally be somewhat unstable. Applying a
-        # random rotation will usually fix the issue.
+        # random rotation (to the original vertices, so that only the last
+        # one has to be undone) will usually fix the issue.
         max_attempts = 10
         attempt = 0
-        current_rotation = [1, 0, 0, 0]
-        vertices = self.vertices
+        current_rotation = np.eye(2)
+        vertices = planar_vertices
         while attempt < max_attempts:
             attempt += 1
             try:
                 center, r2 = miniball.get_bounding_ball(vertices)
                 break
             except np.linalg.LinAlgError:
-                current_rotation = rowan.random.rand(1)
-                vertices = rowan.rotate(current_rotation, vertices)
-
-        if attempt == max_attempts:
+                angle = np.random.uniform(0, 2 * np.pi)
+                current_rotation = np.array(
+                    [[np.cos(angle), -np.sin(angle)], [np.sin(angle), np.cos(angle)]]
+                )
+                vertices = np.dot(planar_vertices, current_rotation.T)
+        else:
             raise RuntimeError("Unable to solve for a bounding circle.")
 
-        # The center must be rotated back to undo any rotation.
-        center = rowan.rotate(rowan.conjugate(current_rotation), center)
+        # The center must be rotated back to undo any rotation, and then moved
+        # back into the plane of the polygon.
+        center = np.dot(center, current_rotation)
+        center = np.dot(np.append(center, height), rotation)
 
         return Circle(np.sqrt(r2), center)
 
